@@ -44,6 +44,11 @@ for d in sorted(glob.glob(V + "/seeded/C*-*")):
                       "failing_assertions": r.get("failing", [])},
         "caught": (rc == 1),
     }
+    if sid == "C05-R5B":
+        meta["history"] = ("missed by the quick tier when first tried (the linear scan was followed only up to entry 256) and caught "
+                           "by the thorough tier in 1250 s; since round 6 the whole scan runs in the quick tier and catches it there")
+    if sid == "C20-R6C":
+        meta["origin"] += "; written by the C03 agent as its second change (a static phrase buffer in polyseed_encode): sequential behaviour is unchanged, so it is kept and tried as a C20 change"
     json.dump(meta, open(d + "/meta.json", "w"), indent=1)
     rows.append((sid, prop, meta["caught"], r.get("result", "?"), "; ".join(x.split(" [")[1].rstrip("]") for x in r.get("failing", [])[:1]) if r.get("failing") else "",
                  (am.get("what_it_needs_to_manifest", "") or "").replace("\n", " ")[:160]))
@@ -82,8 +87,15 @@ with open(V + "/seeded/README.md", "w") as f:
             "earlier rounds had tried): 23 of 24 caught by the quick check once the instance lists were completed (C18 now includes the\n"
             "wipe harnesses, C12 the storage harnesses and the unsigned-char build, C10 k4_birthday, C03 the word tables and the decoder\n"
             "skeletons, C05 the search harness). C05-R5B -- the linear scan of the two unsorted lists unrolled four times and never\n"
-            "looking at the last four entries -- is missed by the quick tier (it follows the linear scan only up to entry 256) and caught\n"
-            "by the thorough tier (t2_search over the whole list).\n"
+            "looking at the last four entries -- was missed by the quick tier while that followed the linear scan only up to entry 256\n"
+            "(caught by the thorough tier then; see round 6).\n"
+            "Round 6 (ids with R6; sixteen uninformed agents, two changes each, asked for breakage that needs something specific to\n"
+            "manifest: a rare value, a boundary length, one language, hidden state between calls, a fault at one exit, two cooperating\n"
+            "sites): all 32 caught by the quick check of their property as it stood, each with a natively reproduced counterexample\n"
+            "(C20-R6C is the C03 agent's second change -- a static phrase buffer in polyseed_encode, a thread-safety defect -- and was run\n"
+            "against C20). In the same round the whole linear scan of t2_search moved into the quick tier (the list kind became a\n"
+            "compile-time constant of the instance instead of an assumption: 90 s instead of 21 min), so C05-R5B is now caught by the quick\n"
+            "check as well.\n"
             "\nBehaviour-preserving refactorings (12 patches from three further sub-agents, `seeded/benign/`) are the opposite test:\n"
             "every relevant quick check must stay quiet on them (results in `seeded/benign/README.md`).\n")
 print("%d seeded, %d caught" % (len(rows), sum(1 for r in rows if r[2])))
